@@ -119,8 +119,11 @@ def judge(cases, now_slack=True):
                                 "watched key %s changed between WATCH and EXEC but EXEC ran: %s" % (k, " ".join(rep)[:60]))
                     elif not touched:
                         if cs["queued"] == 0:
-                            if first not in ("A0",):
-                                err("EXEC/empty", "EXEC of an empty transaction must reply an empty array, got %s" % " ".join(rep)[:60])
+                            if first in ("N", "n"):
+                                # nothing this connection watches was touched, yet the transaction was aborted
+                                err("EXEC/spurious-abort", "EXEC of an empty transaction was aborted although no watched key was touched: %s" % " ".join(rep)[:60])
+                            elif first not in ("A0",):
+                                err("EXEC/empty", "EXEC of an empty, unwatched transaction must reply an empty array, got %s" % " ".join(rep)[:60])
                         elif first != "A%d" % cs["queued"]:
                             sig = "EXEC/spurious-abort" if first in ("N", "n") else "EXEC/reply-count"
                             err(sig, "EXEC must run the %d queued commands (no watched key was touched), got %s" % (cs["queued"], " ".join(rep)[:60]))
